@@ -24,11 +24,15 @@ class RuleGen:
 
     def rule(self, doc, cast_p=0.0, depth=2, path_args_p=0.0):
         pt = self.pg.path(doc, max_len=3, mods_p=0.0)
-        if isinstance(doc, dict) and "_mixed" not in doc and self.r.random() < 0.06:
+        if self.r.random() < 0.1 and not (isinstance(doc, dict) and "_mixed" in doc):
             # graft a sub-document with sibling mappings and lists, reached by ONE map-or-list part with its own conditions
             sub, pt2 = self.pg.mixed_doc_and_path()
-            doc["_mixed"] = sub
-            pt = PathT([Prim("_mixed")] + pt2.parts, [])
+            if isinstance(doc, dict):
+                doc["_mixed"] = sub
+                pt = PathT([Prim("_mixed")] + pt2.parts, [])
+            else:
+                doc.append(sub)
+                pt = PathT([Prim(len(doc) - 1)] + pt2.parts, [])
         sel = self.selected(pt, doc)
         probe = [x for x in sel] or [1, "a"]
         if sel and self.r.random() < 0.4:
